@@ -5,6 +5,7 @@
 // determinism gate, shrinks (ddmin over ops + engine-specific simplifications) and writes the
 // replay artefact. No code in here reads a clock or any entropy source.
 #pragma once
+#include <cerrno>
 #include <cstdint>
 #include <cstdio>
 #include <cstdlib>
@@ -135,6 +136,7 @@ struct Shared
 	char vclass[128];
 	char detail[2048];
 	int32_t nontrivial;
+	uint64_t ambient_errno;	  // ops started with a non-zero errno left behind (generic fault)
 	uint64_t probes[MAX_PROBES];
 	double metrics[32];
 	uint8_t states[MAX_STATES / 8];
@@ -182,11 +184,19 @@ struct Ctx
 	Log log;
 	const Opts* opts;
 	int cur = -1;
+	uint64_t salt = 0;	 // per-plan value from which the ambient faults of each op are derived
 	void begin_op(int k)
 	{
 		cur		   = k;
 		sh->cur_op = k;
 		sh->nops++;
+		// Ambient-state fault: errno is whatever earlier, unrelated calls left behind. Code that tests errno without
+		// clearing it first (or that assumes it is zero) misbehaves only after such leftovers; correct code never notices.
+		static const int LEFTOVER[8] = {0, 0, ERANGE, ERANGE, EDOM, EINTR, ENOENT, EAGAIN};
+		int e = LEFTOVER[mix64(salt + (uint64_t) k * 0x9E3779B1ull) & 7];
+		errno = e;
+		if(e)
+			sh->ambient_errno++;
 	}
 	void probe(int id, uint64_t n = 1)
 	{
